@@ -299,33 +299,42 @@ def parse_race_reports(text, info, scenario=None):
                     break
             accs = table.get((lib[1], lib[2]), []) if lib else []
             exact = set(a["field"] for a in accs if not a.get("reflective") and (a["kind"] == "W") == is_write)
-            refl = set(a["field"] for a in accs if a.get("reflective"))
-            cand = exact or refl or set(a["field"] for a in accs)
+            refl = set() if is_write else set(a["field"] for a in accs if a.get("reflective"))   # reflective entries are reads
+            cand = exact or refl
+            inner = next((fn for fn, _, _, _ in frames if not fn.startswith(("runtime.", "reflect.", "sync/atomic."))), frames[0][0] if frames else "?")
             sides.append({"write": is_write, "frame": lib, "accesses": accs, "cand": cand, "reflective": bool(refl) and not exact,
-                          "fn": _short_fn(lib[0]) if lib else "?"})
+                          "fn": _short_fn(lib[0]) if lib else "?", "inner": inner})
         a, b = sides
         field, via = "?", None
         if a["cand"] & b["cand"]:
             field = sorted(a["cand"] & b["cand"])[0]
         else:
-            # the two frames do not name a common field: one side touches memory that was published through a callee of its
-            # function (e.g. the bytes a formatter wrote and then handed to Event.FormattedAs, read by a reflective copy)
+            # the two frames do not name a common field.  (1) One side touches a buffer that its function then publishes through a
+            # callee (the bytes a formatter encoded and handed to Event.FormattedAs, read by a reflective copy of the event):
+            # attributed to the published field.  (2) Otherwise the memory lies outside the tracked fields: named after the
+            # innermost non-runtime function that touches it (e.g. extern:time.initLocal).
             for known, other in ((a, b), (b, a)):
-                hitf = None
-                for callee in calls.get(other["fn"], []):
-                    hit = written_by.get(callee, set()) & known["cand"]
-                    if hit:
-                        hitf = (sorted(hit)[0], callee)
+                if other["cand"] or not known["cand"]:
+                    continue
+                if other["inner"].startswith(("bytes.(*Buffer)", "encoding/json.")):
+                    hitf = None
+                    for callee in calls.get(other["fn"], []):
+                        hit = written_by.get(callee, set()) & known["cand"]
+                        if hit:
+                            hitf = (sorted(hit)[0], callee)
+                            break
+                    if hitf:
+                        field, via = hitf[0], other["fn"]
+                        other["fn"] = hitf[1]
                         break
-                if hitf:
-                    field, via = hitf[0], other["fn"]
-                    other["fn"] = hitf[1]
-                    other["accesses"] = []
-                    break
+                field = "extern:" + other["inner"]
+                break
             else:
                 cands = [x["cand"] for x in (a, b) if x["cand"] and not x["reflective"]]
                 if len(cands) == 1 and len(cands[0]) == 1:
                     field = sorted(cands[0])[0]
+                elif a["cand"] and b["cand"]:
+                    field = sorted(a["cand"] | b["cand"])[0]
 
         def fn_of(s):
             for x in s["accesses"]:
@@ -339,7 +348,7 @@ def parse_race_reports(text, info, scenario=None):
         else:
             reader, writer = sorted((fn_of(a), fn_of(b)))
         reports.append({"field": field, "reader": reader, "writer": writer, "token": "race:%s|%s|%s" % (field, reader, writer),
-                        "library_frames": all(x["frame"] for x in sides), "in_access_table": all(x["accesses"] for x in sides),
+                        "library_frames": all(x["frame"] for x in sides), "in_access_table": all(x["cand"] for x in sides),
                         "published_via": via, "reflective_side": any(x["reflective"] for x in sides), "scenario": scenario,
                         "frames": [list(x["frame"]) if x["frame"] else None for x in sides], "text": ("WARNING: DATA RACE" + blk)[:7000]})
     return reports
